@@ -1819,6 +1819,60 @@ func ruleNonSynIgnored(c *Checker, fn *ssa.Function) {
 				okShortcut = false
 			}
 		}
+		// ... and it takes both: when the client's SYNACK is lost (not late) the first thing the
+		// restarted server sees is the client's DATA - without the DATA arm it waits for a SYN that
+		// the client, which is in its data phase, never sends again
+		haveT := map[string]bool{}
+		allInstrs(fn, func(in ssa.Instruction) {
+			ta, ok := in.(*ssa.TypeAssert)
+			if !ok || !ta.CommaOk || namedOf(ta.AssertedType) == nil || dominatedBySynEcho(w, ta.Block()) {
+				return
+			}
+			tn := namedOf(ta.AssertedType).Obj().Name()
+			if tn != "PacketSYNACK" && tn != "PacketData" {
+				return
+			}
+			for _, r := range *ta.Referrers() {
+				ex, ok := r.(*ssa.Extract)
+				if !ok || ex.Index != 1 {
+					continue
+				}
+				for _, rr := range *ex.Referrers() {
+					if iff, ok := rr.(*ssa.If); ok {
+						// the ok-successor reaches a block under the restart flag
+						succ := iff.Block().Succs[0]
+						seen := map[*ssa.BasicBlock]bool{}
+						var walk func(b *ssa.BasicBlock, d int) bool
+						walk = func(b *ssa.BasicBlock, d int) bool {
+							if seen[b] || d > 6 {
+								return false
+							}
+							seen[b] = true
+							if restartOK(b) {
+								return true
+							}
+							for _, in2 := range b.Instrs {
+								if _, isTA := in2.(*ssa.TypeAssert); isTA && b != succ {
+									return false
+								}
+							}
+							for _, sx := range b.Succs {
+								if walk(sx, d+1) {
+									return true
+								}
+							}
+							return false
+						}
+						if walk(succ, 0) {
+							haveT[tn] = true
+						}
+					}
+				}
+			}
+		})
+		c.decide(haveT["PacketSYNACK"] && haveT["PacketData"], "GBNHS-3", fnName(fn)+"|the restart shortcut takes a SYNACK and a DATA packet", fn.Pos(),
+			"both type tests lead to the leg that completes after a restart",
+			fmt.Sprintf("after a restart the server does not complete on both a SYNACK and a DATA packet (SYNACK: %v, DATA: %v): if the client's SYNACK was lost, its DATA is all the server ever gets and the handshake never completes", haveT["PacketSYNACK"], haveT["PacketData"]))
 		c.decide(okShortcut, "GBNHS-3", fnName(fn)+"|restart shortcut only for SYNACK or DATA", fn.Pos(),
 			"the leg that completes after a restart is entered only through a successful type test for SYNACK or DATA",
 			"after a restart any non-SYN packet (FIN, ACK, NACK of an abandoning or earlier client) completes the server's handshake: it enters the data phase although no client finished")
